@@ -1,12 +1,13 @@
 """C11 — bridging to chain-custom types preserves the response and the call."""
 import json
 
-from .. import common as c, corpus, translate, custbins
+from .. import common as c, corpus, translate, custbins, rs2lean
 
 THEOREMS = [("Sylvia.Thm.C11", "C11." + t) for t in ["into_response_ok", "into_response_err_iff", "intoMsgs_ok", "intoMsgs_err"]] + \
            [("Sylvia.Thm.C11Features", "C11.into_response_ok_under"), ("Sylvia.Thm.C11Features", "C11.completeAllB_sound"),
             ("Sylvia.Thm.Obl.ConvertibleCfg", "Obl.convertible_complete_under_all_features"),
-            ("Sylvia.Thm.Obl.Convertible", "Obl.convertible_complete"), ("Sylvia.Thm.Obl.Complete.C11", "Obl.extraction_complete_C11")]
+            ("Sylvia.Thm.Obl.Convertible", "Obl.convertible_complete"), ("Sylvia.Thm.Obl.Complete.C11", "Obl.extraction_complete_C11")] + \
+           [("Sylvia.Thm.C11Bridge", "C11B." + t) for t in ["code_ok", "code_err_iff", "code_total", "into_msg_ok", "into_msg_custom", "into_msg_total"]]
 KINDS = ["bank", "burn", "wasm", "wasm_inst", "custom", "staking", "distribution", "ibc", "ibc_transfer", "gov", "any", "stargate"]
 
 
@@ -32,6 +33,13 @@ def run(ctx):
     ctx.assumptions += ["cargo features of the harness: staking, stargate, cosmwasm_2_0 (all CosmosMsg variants of cosmwasm-std 2.2 present); a second build uses sylvia's default features only",
                         "the dispatch arms that call into_response / into_empty for `: custom(msg, query)` interfaces are covered by the L1 facts of C17/C03 streams (templates) — see DESIGN"]
     translate.regenerate()
+    # function translator: sylvia/src/into_response.rs -> Extracted/BridgeFns.lean (cfg'd arms as `if feat ".."`); the theorems of
+    # Thm/C11Bridge.lean are re-checked against what it produced from the current source
+    br_problems = rs2lean.regenerate("bridge")
+    ctx.cov["function_translator_bridge"] = {"source": "sylvia/src/into_response.rs (IntoMsg::into_msg, IntoResponse::into_response)",
+                                             "output": "lean/Sylvia/Extracted/BridgeFns.lean", "problems": br_problems}
+    if br_problems:
+        ctx.obligation_failed("function-translator(bridge)", "; ".join(br_problems)[:1500])
     c.prove(ctx, ["Sylvia.Thm.C11", "Sylvia.Thm.Obl.Convertible"], THEOREMS)
     exe = c.build_rt(own="intoresp")
     rng = ctx.rng
@@ -45,6 +53,13 @@ def run(ctx):
     model = c.run_driver(ops)
     canon = [("err unknown-variant" if x.startswith("err Generic error: Unknown message variant") else x) for x in impl]
     nd = c.diff_streams(ctx, "L3-into-response", ops, canon, model)
+    # the regenerated functions themselves, run by the driver on the same responses (validates the function translator and the
+    # hand-written declarations of the cosmwasm_std types)
+    opsx = ["intorespx staking,stargate,cosmwasm_2_0 " + o[len("intoresp "):] for o in ops]
+    modelx = c.run_driver(opsx)
+    nx = c.diff_streams(ctx, "L3-into-response-regenerated", opsx, canon, modelx)
+    ctx.cov["streams"]["L3-into-response-regenerated"] = {"evaluations": len(opsx), "distinct_nontrivial": len(set(opsx)), "disagreements": nx,
+        "what": "Extracted.Bridge.Response.into_response (regenerated from source, all features on) vs the real IntoResponse"}
     bad = 0
     hist = {}
     for s, o, r in zip(specs, ops, impl):
@@ -65,6 +80,11 @@ def run(ctx):
     specs2 = [sp for sp in specs if all(m["kind"] in kinds_min for m in sp["msgs"])][:ctx.size(1500, 40000)]
     ops2 = ["intoresp " + json.dumps(sp, separators=(",", ":")) for sp in specs2]
     impl2 = c.run_lines(exe_min, ops2)
+    opsx2 = ["intorespx staking " + o[len("intoresp "):] for o in ops2]
+    nx2 = c.diff_streams(ctx, "L3-into-response-regenerated-default-features", opsx2,
+                         [("err unknown-variant" if x.startswith("err Generic error: Unknown message variant") else x) for x in impl2], c.run_driver(opsx2))
+    ctx.cov["streams"]["L3-into-response-regenerated-default-features"] = {"evaluations": len(opsx2), "distinct_nontrivial": len(set(opsx2)), "disagreements": nx2,
+        "what": "the regenerated function with feat = {staking} vs the real library built with sylvia's default features"}
     bad2 = 0
     for sp, o, r in zip(specs2, ops2, impl2):
         has_custom = any(m["kind"] == "custom" for m in sp["msgs"])
